@@ -240,24 +240,24 @@ NOT_YET = "check not built yet in this round (planned in DESIGN.md section 9); n
 EXTRA = {
     "C01": "Also: 45-70-call simulated histories (12 files, prefix-related and non-ASCII names), 5 000/70 000 files (index over 1 MiB), 700 runs per file, structural-byte contents, the configuration API (Config model), the compression writer (CompWriter model + Apalache inductive invariant).",
     "C02": "Also: RepairLoop model replayed behaviour by behaviour; repair sweeps over long-history archives; every third repair into a pre-populated output writer; structural-byte contents. 5 000/70 000 files closed while one file stays open, repaired intact and cut.",
-    "C03": "Also: reader configurations carrying the fail-safe 'unauthenticated' option (the normal reader must not be affected).",
+    "C03": "Also: reader configurations carrying the fail-safe 'unauthenticated' option (the normal reader must not be affected). Every alteration also applied AFTER the archive was opened and read once (storage shared between reader and editor).",
     "C04": "Also: the default reader configuration (no setter) and the explicit setter round trip; `mlar repair` with and without --allow-unauthenticated-data on archives damaged in the middle; every chunk of a long-history archive damaged.",
     "C05": "Also: 5 000/70 000-file archives repaired intact and cut; long-history archives swept at every second cut; liveness of the decompressor loop. The decoder events of the repository's own fail-safe tests and `mlar repair` runs validated by TraceCompFailSafe (hook H5's trace sink).",
-    "C06": "Also: all-zero / all-0xFF keys, nonces, messages; unauthenticated decryption in the same splits. The independent decoder is strict RFC 7932 (no large-window extension); compress-only archives rotate over levels 5, 10, 2, 9.",
+    "C06": "Also: all-zero / all-0xFF keys, nonces, messages; unauthenticated decryption in the same splits. The independent decoder is strict RFC 7932 (no large-window extension); compress-only archives rotate over levels 5, 10, 2, 9. FORMAT.md's worked example of `offsets` re-derived and compared with its own statement, and its archive read by the library (D25, fixed).",
     "C07": "Also: `mlar create` with 3 and 40/300 recipients (default layers included); a destination failing once with the writer driven on (64-byte chunks, telling names). Freshness history across forked process images; recipients given in one builder call or one call each.",
     "C08": "Also: sign-boundary and small-negative lengths, subset extraction, a focused slice (damaged compressed block x any mutation x three operations), a truncation x footer slice, per-operation watchdog; every RepairLoop behaviour. Runs of 300 000 (3 000 000) empty content blocks encoded independently, read / hashed / extracted / repaired.",
     "C09": "Also: over-long and exactly-at-the-limit NON-ASCII names (bytes vs characters); code->spec: every ArchiveWriter history of the repository's own test suite (entry hooks H5, trace file sink) validated by TLC against the Writer model (TraceWriter).",
     "C10": "Also: seeded random walks of 150 steps over the exported graph; multi-byte and prefix-related names; `fsopt` configuration; structural-byte contents. Skip-scan over 1 200 (2 600) small files at production constants, each result compared with a reader opened for that file alone.",
-    "C11": "Also: seeded random walks of 200 steps; histories on streams of 17..300 (thorough 65 537) chunks and 17..40 (thorough 1 030) compressed blocks; short reads refined, not abandoned. Skip-scan histories (small reads separated by small relative seeks) over two blocks and more at production constants.",
+    "C11": "Also: seeded random walks of 200 steps; histories on streams of 17..300 (thorough 65 537) chunks and 17..40 (thorough 1 030) compressed blocks; short reads refined, not abandoned. Skip-scan histories (small reads separated by small relative seeks) over two blocks and more at production constants. Positions beyond 2^32 (a 4.3 GB zero stream as 18 kB of compressed blocks).",
     "C12": "Also: 66 000/140 000 files (ids beyond 2^16) extracted linearly, all and a subset.",
     "C13": "Also: destinations implementing write_vectored with partial acceptance (schedules splitting a gather write beyond the tag). Requests of 1 MiB + 1 / 2 MiB / 5 MiB and read_to_end, and repair, through sources returning at most 1 .. 1 MiB bytes per read, production constants.",
-    "C14": "Also: destinations accepting 1/3/7 bytes per write with interruptions; long histories with a flush after every call. Flush distances 0.9-9 MB at production constants (text and random bytes), the destination's bytes at the flush repaired.",
-    "C15": "Also: one-block-per-file archives; `mlar`'s peak resident memory for create (file, stdin), list, cat, extract, to-tar, repair, convert at two sizes. The same measurements through the C entry points (write, extract).",
+    "C14": "Also: destinations accepting 1/3/7 bytes per write with interruptions; long histories with a flush after every call. Flush distances 0.9-9 MB at production constants (text and random bytes), the destination's bytes at the flush repaired. One flush in three through a fresh helpers::StreamWriter adaptor.",
+    "C15": "Also: one-block-per-file archives; `mlar`'s peak resident memory for create (file, stdin), list, cat, extract, to-tar, repair, convert at two sizes. The same measurements through the C entry points (write, extract). Files written by 1 000-byte appends.",
     "C16": "Also: output directories that already hold a symbolic link to an outside directory.",
     "C17": "Also: 1 100 interleaved files through the descriptor pool; create from directories with aliasing links; archives to standard output (create, convert, repair); compression levels 11 and 0 always. Keys given as a regular file, a symbolic link, a named pipe and /dev/stdin for every key-taking command.",
-    "C18": "Also: tag-class and tiny-container mutations; key bytes that look like text artefacts (CR LF, BOM, dashes) or structures, for private and (searched) public keys.",
+    "C18": "Also: tag-class and tiny-container mutations; key bytes that look like text artefacts (CR LF, BOM, dashes) or structures, for private and (searched) public keys. PEM files with data before / after the encapsulation boundaries (Bag Attributes, comments, blank lines, BOM).",
     "C19": "Also: output paths that already hold longer files. OpenSSL Ed25519 parents; the known finding D21 is recognised per derivation step.",
-    "C20": "Also: a gcc-compiled C client against mla.h + libmla.a; declining file callbacks; 70 and 1 100 files; NULL reader-configuration handle and key.",
+    "C20": "Also: a gcc-compiled C client against mla.h + libmla.a; declining file callbacks; 70 and 1 100 files; NULL reader-configuration handle and key. Every behaviour runs next to a second live archive of the same process.",
 }
 
 
